@@ -20,60 +20,40 @@ P = {
             'alignment/format/version/dark-module cells and bit->cell maps of both copies for all 44 sizes, '
             'reservation = written regions, cell conservation, metadata flow',
             'nothing about function patterns; placement of data bits is C03'),
-    'C03': ('constant folding vs GF(256)/generator/Table-9 oracles; affine index forms and pattern/slot '
-            'matching of the division loop; decision table of remainder bits over 44 versions',
-            'field tables, 18 generator polynomials, 168 block layouts, division loop index forms and bounds, '
-            'final message order, remainder bits, placement guards',
-            'the zig-zag placement order for every matrix; the RS correctability theorem'),
-    'C04': ('capacity table vs oracle (168 cells); pattern/slot matching of the version scan; finite decision '
-            'table of the admissible range over the option flags; dominance of a fit witness before every _encode',
-            'capacity table, mode availability, ascending first-fit scan with >=, admissible range table, '
-            'requested-version test, fit witness per _encode call, sized = written',
+    'C03': ('constant folding vs GF(256)/generator/Table-9 oracles; role-based normal forms of the division loop (single-assignment locals inlined); abstract interpretation of make_final_message and add_codewords on marker codewords / position markers for every version and level',
+            'field tables, 18 generator polynomials, 168 block layouts, division loop index forms, operands and bounds, final message order incl. M1/M3 half codeword and remainder bits for every version/level, placement order = ISO 7.7.3 zigzag for the placed markers, surplus refused',
+            'that the division computes the Reed-Solomon remainder for every data block (the loop is checked by its index and operand forms, not executed on data); the RS correctability theorem'),
+    'C04': ('capacity table vs oracle (168 cells); abstract interpretation of find_version / encode / encode_sequence over a finite domain of option flags and capacity distances with segment construction, version search and _encode replaced by recorders (fit witness: the segments searched are the segments encoded, version >= result)',
+            'capacity table, mode availability, first admissible fitting version for every admissible-range combination, requested-version test, fit witness per _encode call on every path of encode / encode_sequence, bits budgeted = bits written',
             'the payload bit count of a concrete content (its formula is C01.R2/R3)'),
     'C05': ('constant folding (monotone capacities for 44 versions); loop-shape pattern matching; reaching '
             'definitions of version/error in _encode; guard dominance',
             'level order and strictly decreasing capacities, boost loop shape, Micro level lists, version has one '
             'definition, boost only under the flag, default L and H/Micro refusal, same length measure',
             '"highest level that still holds this content" for a concrete content'),
-    'C06': ('finite truth tables of the 8 mask predicates over one period vs ISO Table 10; pattern/slot '
-            'matching of the selection loop; sibling comparison row/column of N1; self-overlap shift of the N3 literal',
-            'mask predicates, selection comparator/order, requested-mask path, evaluation before format info, '
-            'mask region, N1 sibling agreement and constants, N3 resume offset, N4 and Micro formulas',
-            'that the N1/N2 counting loops compute the ISO counts for every matrix'),
-    'C07': ('order of tests in find_mode; regex AST of the alphanumeric pattern (anchors, exact class); truth '
-            'table of is_kanji; guard dominance of pair indexing',
-            'detection order/return set, regex anchoring and class = 45 characters, kanji ranges and trail bytes, '
-            'requested-mode test and constant order, evenness guard, reported mode = written indicator',
+    'C06': ('finite truth tables of the 8 mask predicates over one period vs ISO Table 10; abstract interpretation of the selection function with arbitrary score vectors; normal forms and propositional comparison of the N1/N2/N3 scoring conditions (role-based, truth tables over their atoms); self-overlap shift of the N3 literal',
+            'mask predicates, lowest-numbered optimum, requested-mask path, evaluation before format info, mask region = complement of function patterns, N1 thresholds and scores at all four sites, N2 condition, N3 literal / window / edge condition / resume offset, N4 and Micro formulas for every dark count',
+            'that the N1/N2 counting loops compute the ISO counts for every matrix (their conditions and increments are checked, the scan over a matrix is not executed)'),
+    'C07': ('abstract interpretation of find_mode with the content abstracted to isdigit() and every compiled pattern / the kanji predicate to one answer (decision table over the eight outcomes); regex AST of the alphanumeric pattern per consulting method (match / fullmatch / search); truth table of is_kanji; abstract interpretation of the head of make_segment and of encode over mode x version',
+            'detection order/return set, whole-string use of the pattern and class = 45 characters, kanji ranges and trail bytes, requested-mode decision table, evenness guard, mode/version refusal for 6 x 44 combinations, reported mode = written indicator',
             'codec behaviour'),
-    'C08': ('pattern/slot matching and def-use in encode_sequence/_encode; fit-witness dominance per chunk; '
-            'forwarding of encoding to parity',
-            'header field order/width, total-1, shared parity, parity bytes = message bytes, chunk mode/encoding = '
-            "whole message's, fit witness per chunk, QR only, count guards",
+    'C08': ('abstract interpretation of encode_sequence with the content abstracted to position markers and segment construction, version search, parity and _encode replaced by recorders; _encode stage trace for the header bits',
+            'k symbols whose chunks concatenate to the content, whole-message mode/encoding, header fields and widths before any segment, shared parity over the message bytes in the chunk encoding, common fitting version, per-chunk fit witness, refusals',
             'that concatenated decoded payloads equal the content (needs C01 whole)'),
-    'C09': ('def-use of scale/border between header and row source; dominance of int(scale) and validation; '
-            'pattern/slot of PNG chunk/IHDR/bit-depth/packing; polarity tables',
-            'one row source per writer, truncation before header, validation first, PNG chunk discipline, bit depth, '
-            'packing groups/fill/order, polarity per format, declared sample scale',
-            'pixel-by-pixel equality and byte-exact well-formedness'),
-    'C10': ('sibling comparison of SVG/EPS/PDF scale guards; taint of float scale into floor operations; '
-            'unit typing (device vs module) of emitted lengths; PDF object/xref typestate',
-            'one run extractor, transform guard, no floor of float scale, units, origin sibling, PDF /Length, xref, '
-            'startxref, obj/endobj pairing, page fields, linear colour scale',
-            'that matrix_to_lines yields exactly the dark runs and that relative coordinates paint them'),
-    'C11': ('constant folding of TYPE constants; anchored-region algebra: classifier regions vs encoder regions '
-            'for all 44 sizes; colour-map key/keyword identity; shortcut-guard classification',
-            'type constants, tuple polarity, classifier = encoder regions (44 sizes, every cell), colour map wiring '
-            'and thresholds, iterator validation, shortcut soundness',
-            'the colour bytes in the output files'),
-    'C12': ('forwarding tables (wrapper parameter -> writer parameter); CLI defaults vs writer signature defaults; '
-            'taint from file name to format templates; dispatch table',
-            'dispatch/lower(), wrapper forwarding completeness, transport-only routes, CLI default = writer default '
-            'for every (dest, writer), colour list, sequence naming',
-            'byte equality of the outputs'),
-    'C13': ('finite truth tables of the extracted pad/terminator arithmetic over every (capacity, length) pair '
-            'of every version class; literal comparison of pad codewords and terminator table',
-            'terminator count, pad-bit count range, pad codeword literals/alternation/count, M1/M3 tail, remainder '
-            'zeros, call order in _encode',
+    'C09': ('abstract interpretation of every raster/text serialiser on a pattern symbol with reference row sources and a recording output; the output is decoded by an independent reader of the format (PBM P1/P4, PAM, PPM, XPM, XBM, PNG incl. CRC/IHDR/PLTE/tRNS/filters, ANSI and half-block terminal) and compared with the picture of the pattern symbol, over a grid of sizes, scales (incl. fractional and byte-aligned widths), borders and colour classes',
+            'well-formedness (signature, chunk length/CRC/order, declared dimensions = pixel data), pixel (x, y) = colour of module (y div s - b, x div s - b) incl. the quiet zone, int() truncation of the scale, row source asked for the same scale/border, packing and polarity of every format, PAM header decision over all colour classes, PNG palette / alpha / transparency for 140 colour-class combinations, dpi / compresslevel',
+            'real symbols of every size (the pattern symbol stands for them because the serialisers touch the symbol only through the row sources, which C11.R6 decides)'),
+    'C10': ('abstract interpretation of the SVG/EPS/PDF/TeX serialisers with the run extractor replaced by marker runs / a reference extractor and a recording output; the document is parsed (attributes, transforms, path data, operators, xref) and compared with the required structure; taint of float scale into floor operations; bounded-exhaustive check of the run extractor',
+            'page fields = (size+2b)*scale, transform iff scale != 1 and placed after the background, runs in module units at the border offset, colours for all 256 component values, PDF /Length, xref, startxref, obj/endobj pairing, no floor of a float-tainted scale, run extractor = maximal dark runs (bounded)',
+            'the run extractor beyond the bounded domain (every 0/1 matrix up to 1x6 and 2x4)'),
+    'C11': ('constant folding of TYPE constants; anchored-region algebra: classifier regions vs encoder regions for all 44 sizes; decision table of the colour map over sizes and keywords; abstract interpretation of the SVG / PNG / PPM serialisers on a typed pattern symbol with decoding of the output (as C09)',
+            'type constants, polarity, classifier = encoder regions (44 sizes, every cell), colour map wiring and thresholds, iterator mapping and validation, every module painted with the colour of its type in SVG (incl. two-colour shortcut, background, transparent modules), PNG and PPM',
+            'real symbols (see C09)'),
+    'C12': ('abstract interpretation of save / the data-URI and inline routes / QRCodeSequence.save / the CLI (argparse run by the interpreter) with recording serialisers; forwarding tables (wrapper parameter -> writer parameter); CLI defaults vs writer signature defaults',
+            'dispatch by kind and extension in any case incl. svgz, data URI / inline text decode to exactly the serialiser output (known finding: quote style), wrapper forwarding completeness, CLI default = writer default for every (dest, writer), only accepted keywords passed, sequence file naming from the parts of the name',
+            'byte equality of the outputs of real symbols'),
+    'C13': ('finite truth tables of the pad/terminator helpers (interpreted) over every (capacity, length) pair of every version class; _encode stage trace with recording stand-ins',
+            'terminator count, pad-bit count range, pad codeword alternation/count, M1/M3 tail, order of the three helpers on one bit buffer with current lengths, capacity of the boosted level',
             'nothing beyond the pure arithmetic (these helpers are data-independent)'),
     'C14': ('exception-class census of all raise statements; handled-lookup discipline on user-keyed tables; guard '
             'dominance of exclusions before _encode; call-graph acyclicity and loop progress; CLI exit paths',
@@ -86,11 +66,9 @@ P = {
             'no write to module state after import, parameter mutation summaries + ownership, candidate row copies, '
             'no nondeterminism source on the encode path, no mutable defaults, purity of _encode',
             'nothing: the quantifier over histories/schedules collapses to absence of shared mutable state'),
-    'C16': ('taint from parameters to payload through escapers; escape-table contents; regex end anchors; '
-            'delimiter typestate; EPC guard constants and line order',
-            'every interpolated value escaped, tables neutralise delimiters, \\Z anchors, percent-encoding, ?/& '
-            'typestate, EPC guards/limits/line order/charset flow/level M/no boost/version guard',
-            'numeric equality of the EPC amount; URI validity; C01 for the resulting symbols'),
+    'C16': ('abstract interpretation of the payload builders on hostile marker values (every delimiter, escape character and line break in every parameter) with an independent parser of WIFI / MeCard / vCard / mailto payloads; escape-table contents; regex end anchors; abstract interpretation of the EPC builder on length-only texts and boundary amounts; factories interpreted with recording stand-ins',
+            'WIFI/MeCard fields split at unescaped ; and recover verbatim, one content line per vCard value, dates validated, mailto addresses/texts/delimiters, escape tables, \\Z anchors, EPC limits on both sides of every boundary, line order, charset number, 331-byte guard, level M / no boost / version <= 13, factories forward every parameter',
+            'numeric equality of the EPC amount for every Decimal; geo formatting beyond the sample grid; C01 for the resulting symbols'),
 }
 
 SECTION = {k: f'DESIGN.md section 5, {k}' for k in P}
@@ -122,7 +100,7 @@ def main():
             'engine': 'vstatic',
             'level_claimed': {
                 'category': 'other',
-                'text': ('Static decision (AST of the current /repo source; nothing is imported or executed) of named '
+                'text': ('Static decision (AST of the current /repo source; nothing of the repository is imported or run under CPython; data-independent control code is interpreted by the analyser over model objects) of named '
                          'structural necessary conditions of the property: ' + decided + '. Exhaustive over the finite '
                          'tables and size/option classes it ranges over; three-valued (holds / violated / analysis-error). '
                          'NOT decided: ' + notdec + '. This is the right level because the clauses decided are '
